@@ -7,6 +7,7 @@ import CnvVerif.Lemmas.Tile
 import Mathlib.Tactic.Ring
 import Mathlib.Tactic.Linarith
 import Mathlib.Tactic.FieldSimp
+import Mathlib.Tactic.NormNum
 namespace CnvVerif
 
 theorem sumQ_acc (l : List Rat) (a : Rat) : l.foldl (· + ·) a = a + sumQ l := by
@@ -129,5 +130,35 @@ theorem stretchEnds_keeps (f l : Bin) (segs : List SegO) :
   unfold stretchEnds
   rw [setLast_map_inv _ _ (by intro y; by_cases h : (y.chrom == l.chrom) = true <;> simp [h]),
     setFirst_map_inv _ _ (by intro y; by_cases h : (y.chrom == f.chrom) = true <;> simp [h])]
+
+/-! ### the oracle on the real rows accepts the model's rows -/
+
+theorem closeQ_refl (a : Rat) : closeQ a a = true := by
+  unfold closeQ
+  simp only [sub_self, lt_self_iff_false, if_false, decide_eq_true_eq]
+  have h1 : (0 : Rat) ≤ max 1 (if a < 0 then -a else a) := le_trans (by norm_num) (le_max_left _ _)
+  have : (0 : Rat) ≤ 1 / 1000000000 := by norm_num
+  exact mul_nonneg this h1
+
+theorem spanned_aggregate (cn : List Bin) (g : SegO) : spanned cn (aggregate cn g) = spanned cn g := rfl
+theorem spanned_aggregateNW (cn : List Bin) (g : SegO) : spanned cn (aggregateNW cn g) = spanned cn g := rfl
+
+/-- what the model returns passes the oracle that judges the real rows -/
+theorem transferSpec_map_aggregate (cn : List Bin) (segs : List SegO) :
+    transferSpec true cn (segs.map (aggregate cn)) = [] := by
+  unfold transferSpec
+  simp only [Bool.not_true, Bool.false_or, Bool.true_or, List.any_eq_true, Bool.not_eq_true']
+  simp
+  refine ⟨fun x _ _ => ⟨by rw [aggregate_idem]; exact closeQ_refl _, by rw [aggregate_idem]; exact closeQ_refl _⟩,
+    fun x _ hle => ⟨closeQ_refl _, ?_⟩⟩
+  have hle' : sumQ ((spanned cn x).map (·.weight)) ≤ 0 := hle
+  rw [aggregate_depth_eq, if_neg (not_lt.mpr hle')]
+
+theorem transferSpec_map_aggregateNW (cn : List Bin) (segs : List SegO) :
+    transferSpec false cn (segs.map (aggregateNW cn)) = [] := by
+  unfold transferSpec
+  simp only [Bool.not_false, Bool.true_or, Bool.false_or, List.any_eq_true, Bool.not_eq_true']
+  simp
+  exact fun x _ => ⟨closeQ_refl _, closeQ_refl _⟩
 
 end CnvVerif
